@@ -1,74 +1,29 @@
 //! hv_hydro — harness for C28 / C29 / C30.
 //!
-//! Every program of the corpus (`proglist.rs`, generated from terms by `gen_programs.py`) is compiled by
-//! `build.rs` through the production code generator (`FlowBuilder … generate_embedded`) and `include!`d
-//! here.  A case = (program, inputs, one partition of the inputs into ticks); the compiled DFIR is run in
+//! Every program of the corpus (`progs/src/proglist.rs`, generated from terms by `gen_programs.py`) is
+//! compiled by `progs/build.rs` through the production code generator (`FlowBuilder … generate_embedded`)
+//! and `include!`d in the `hv_hydro_progs` lib crate (so editing this file does not recompile them).  A case = (program, inputs, one partition of the inputs into ticks); the compiled DFIR is run in
 //! process, tick by tick (`Dfir::run_tick_sync`), and its per-tick and final outputs are recorded
 //!   * as op lines for the Lean model driver (`prog <term>` / `tick a,b|c` / `final`),
 //!   * against the property oracle: the final output must equal the reference computed on the whole inputs
 //!     by `refint` (plain Rust iterators), and all partitions of the same inputs must agree.
-use std::cell::RefCell;
 use std::collections::VecDeque;
-use std::pin::Pin;
-use std::rc::Rc;
-use std::task::{Context, Poll};
 
 use hv_common::{Args, Recorder, Rng, read_lines};
+use hv_hydro_progs::{Entry, Ticks, table};
 
 mod refint;
 
-/// an input port the harness feeds between ticks: pending when empty, never ends
-#[derive(Clone, Default)]
-pub struct Feed(Rc<RefCell<VecDeque<i64>>>);
-impl futures::Stream for Feed {
-    type Item = i64;
-    fn poll_next(self: Pin<&mut Self>, _cx: &mut Context<'_>) -> Poll<Option<i64>> {
-        match self.0.borrow_mut().pop_front() {
-            Some(x) => Poll::Ready(Some(x)),
-            None => Poll::Pending,
-        }
-    }
-}
+/// program tags that are compiled but not (yet) part of the generated case stream
+const DISABLED_TAGS: &[&str] = &[];
 
-pub type Ticks = Vec<(Vec<i64>, Vec<i64>)>;
-
-macro_rules! prog {
-    ($name:ident) => {
-        #[allow(unused_imports, unused_qualifications, missing_docs, non_snake_case, unused, clippy::all)]
-        pub mod $name {
-            include!(concat!(env!("OUT_DIR"), "/", stringify!($name), ".rs"));
-            /// run the compiled program tick by tick; one output batch (Debug-printed items) per tick
-            pub fn run(ticks: &super::Ticks) -> Vec<Vec<String>> {
-                let f0 = super::Feed::default();
-                let f1 = super::Feed::default();
-                let collected = std::cell::RefCell::new(Vec::<String>::new());
-                let mut outs = $name::EmbeddedOutputs {
-                    out: |v| collected.borrow_mut().push(format!("{:?}", v)),
-                };
-                let mut res = Vec::new();
-                {
-                    let mut flow = $name(f0.clone(), f1.clone(), &mut outs);
-                    for (a, b) in ticks {
-                        f0.0.borrow_mut().extend(a.iter().copied());
-                        f1.0.borrow_mut().extend(b.iter().copied());
-                        flow.run_tick_sync();
-                        res.push(std::mem::take(&mut *collected.borrow_mut()));
-                    }
-                }
-                res
-            }
-        }
-    };
+/// oracle-signature suffix: the root operator, plus the operator the finding is about when present
+fn sig_site(term: &str) -> String {
+    let toks: Vec<&str> = term.split(' ').collect();
+    let is_tick = toks[0] == "tick" || toks[0] == "tcyc";
+    let root = toks[if is_tick { 1 } else { 0 }].split(':').next().unwrap().to_string();
+    if toks.iter().any(|t| *t == "joinlb") { format!("{root}+joinlb") } else { root }
 }
-pub struct Entry {
-    pub name: &'static str,
-    pub tags: &'static str,
-    pub kind: &'static str,
-    pub term: &'static str,
-    pub run: fn(&Ticks) -> Vec<Vec<String>>,
-}
-
-include!("proglist.rs");
 
 fn show_ints(v: &[i64]) -> String {
     if v.is_empty() { "-".into() } else { v.iter().map(|x| x.to_string()).collect::<Vec<_>>().join(",") }
@@ -130,7 +85,7 @@ impl Runner<'_> {
     fn case(&mut self, n: u64, e: &Entry, ticks: &Ticks, whole: &[Vec<i64>; 2], tag: &str) -> String {
         self.rec.case(n, &format!("prog={} {}", e.name, tag));
         self.rec.line(&format!("prog {}", e.term), &format!("ok {}", e.kind));
-        let outs = (e.run)(ticks);
+        let outs = (e.run)(ticks, false).outs;
         let mut shown = vec![];
         for (i, (a, b)) in ticks.iter().enumerate() {
             let o = refint::show_batch(&refint::canon(e.kind, outs[i].clone()));
@@ -141,7 +96,7 @@ impl Runner<'_> {
         self.rec.line("final", &fin);
         let toks: Vec<&str> = e.term.split(' ').collect();
         let is_tick = toks[0] == "tick" || toks[0] == "tcyc";
-        let root = toks[if is_tick { 1 } else { 0 }].split(':').next().unwrap().to_string();
+        let root = sig_site(e.term);
         if is_tick {
             // property oracle (C30): every tick's output = the list function of that tick's batch(es)
             // (previous tick for defer/cycle), computed by plain Rust iterators
@@ -159,13 +114,36 @@ impl Runner<'_> {
             // run, exactly what a fresh instance gives when it sees only that tick (real code vs real code)
             if tp.next.is_none() && refint::tick_stateless(&tp.out) && ticks.len() >= 2 {
                 for i in 0..ticks.len() {
-                    let alone = (e.run)(&vec![ticks[i].clone()]);
+                    let alone = (e.run)(&vec![ticks[i].clone()], false).outs;
                     let alone = refint::show_batch(&refint::canon(e.kind, alone[0].clone()));
                     self.rec.check(
                         shown[i] == alone,
                         &format!("{}-state-leak@{}", self.mode, root),
                         &format!("prog={} term=`{}` ticks={:?} tick#{} in-run={} alone={}", e.name, e.term, ticks, i, shown[i], alone),
                     );
+                }
+            }
+            // lazy scheduling of defer_tick_lazy (DeferTick / tick cycles): when the runtime's own scheduler
+            // (`run_available_sync`) is used instead of explicit ticks, data waiting in a lazily deferred
+            // handoff must not start a tick by itself — exactly one tick per feeding step — and it is
+            // delivered in the next tick that runs, so the per-step outputs are those of explicit ticks
+            if !ticks.is_empty() {
+                let av = (e.run)(ticks, true);
+                let one_each = av.tick_after.iter().enumerate().all(|(i, t)| *t == i as u64 + 1);
+                self.rec.check(
+                    one_each,
+                    &format!("{}-deferred-data-scheduled-a-tick@{}", self.mode, root),
+                    &format!("prog={} term=`{}` ticks={:?} tick counter after each run_available={:?}", e.name, e.term, ticks, av.tick_after),
+                );
+                let av_shown: Vec<String> =
+                    av.outs.iter().map(|o| refint::show_batch(&refint::canon(e.kind, o.clone()))).collect();
+                self.rec.check(
+                    av_shown == shown,
+                    &format!("{}-run-available-vs-explicit-ticks@{}", self.mode, root),
+                    &format!("prog={} term=`{}` ticks={:?} run_available={:?} run_tick={:?}", e.name, e.term, ticks, av_shown, shown),
+                );
+                if e.term.contains("defer") || e.term.starts_with("tcyc") {
+                    self.rec.count("sched:run_available-with-pending-deferred");
                 }
             }
         } else {
@@ -179,6 +157,46 @@ impl Runner<'_> {
                     &format!("{}-final-vs-reference@{}", self.mode, root),
                     &format!("prog={} term=`{}` ticks={:?} got={} want={}", e.name, e.term, ticks, fin, reference),
                 );
+            }
+        }
+        // input-distribution histogram: the partition shapes / input features the anchored branches need
+        if ticks.iter().any(|(a, b)| a.is_empty() && b.is_empty()) {
+            self.rec.count("part:has-empty-tick");
+        }
+        if ticks.len() >= 2 && ticks[0].0.is_empty() && ticks[0].1.is_empty() {
+            self.rec.count("part:first-tick-empty");
+        }
+        if ticks.len() >= 2 && ticks.last().is_some_and(|(a, b)| a.is_empty() && b.is_empty()) {
+            self.rec.count("part:last-tick-empty");
+        }
+        {
+            // a key (residue mod 3) of in0 whose items are spread over several ticks
+            let mut seen_in: [Option<usize>; 3] = [None; 3];
+            let mut split = false;
+            for (i, (a, _)) in ticks.iter().enumerate() {
+                for x in a {
+                    let c = x.rem_euclid(3) as usize;
+                    if seen_in[c].is_some_and(|j| j != i) {
+                        split = true;
+                    }
+                    seen_in[c] = Some(i);
+                }
+            }
+            if split {
+                self.rec.count("part:key-split-across-ticks");
+            }
+            let mut all: Vec<i64> = whole[0].clone();
+            all.sort();
+            if all.windows(2).any(|w| w[0] == w[1]) {
+                self.rec.count("in0:has-duplicates");
+            }
+            if ticks.iter().filter(|(a, _)| !a.is_empty()).count() >= 2 && ticks.iter().filter(|(_, b)| !b.is_empty()).count() >= 1 {
+                self.rec.count("part:both-ports-over-several-ticks");
+            }
+        }
+        for op in ["kreduce", "klimit", "kenum", "kfirst", "kunion", "joinlb", "kscan", "kfold", "join", "joinb", "xsing", "defer", "cyc", "across"] {
+            if toks.iter().any(|t| t.split(':').next() == Some(op)) {
+                self.rec.count(&format!("op:{op}"));
             }
         }
         self.rec.count(&format!("root:{}", root));
@@ -228,7 +246,11 @@ fn main() {
     let mode = args.mode.clone();
     let tab = table();
     let mut rec = Recorder::new("a case is non-trivial when it has >= 2 ticks and a non-empty final output");
-    let progs: Vec<&Entry> = tab.iter().filter(|e| e.tags.split(' ').any(|t| t == mode)).collect();
+    let progs: Vec<&Entry> = tab
+        .iter()
+        .filter(|e| e.tags.split(' ').any(|t| t == mode))
+        .filter(|e| args.replay.is_some() || !e.tags.split(' ').any(|t| DISABLED_TAGS.contains(&t)))
+        .collect();
     if progs.is_empty() {
         eprintln!("no programs for mode {mode}");
         std::process::exit(2);
@@ -334,7 +356,7 @@ fn main() {
             match &first {
                 None => first = Some(fin),
                 Some(f0) => {
-                    let root = e.term.split([' ', ':']).next().unwrap();
+                    let root = sig_site(e.term);
                     if mode != "c30" {
                         run.rec.check(
                             *f0 == fin,
@@ -348,7 +370,7 @@ fn main() {
         for (ticks, w2) in shuffled {
             case_no += 1;
             let fin = run.case(case_no, e, &ticks, &w2, "part=interleave");
-            let root = e.term.split([' ', ':']).next().unwrap();
+            let root = sig_site(e.term);
             run.rec.check(
                 first.as_deref() == Some(fin.as_str()),
                 &format!("{}-cross-key-interleaving@{}", mode, root),
